@@ -1,6 +1,7 @@
 (* C01 -- VCF/BCF to VCF Zarr conversion preserves every record and every field value. *)
 From Coq Require Import ZArith Arith List Bool Permutation Sorting.Sorted.
-From B2Z Require Import Base.Prims Model.Spec Model.Icf Pipeline.Rows Pipeline.Buf Pipeline.Pipe Proofs.SpecProofs.
+From B2Z Require Import Base.Prims Model.Spec Model.Icf Pipeline.Rows Pipeline.Buf Pipeline.Pipe Proofs.SpecProofs Proofs.SpecRoundtrip Bridge.BridgeBuffer.
+From B2Z Require Gen.GenBuffer.
 Import ListNotations.
 Open Scope nat_scope.
 
@@ -51,6 +52,69 @@ Theorem pipeline_refines_spec : forall (A Row : Type) (enc : A -> Row) (cs : nat
   fold_left (run_partition A Row enc cs s) l' a0 i = option_map enc (nth_error (all_values s) i).
 Proof. exact pipeline_rows. Qed.
 Print Assumptions pipeline_refines_spec.
+
+(* THE WHOLE STORE.  decode_store is a function of the stored arrays (and the header) only; for every
+   header and every list of well-formed records -- any number of records, contigs in any order, any
+   INFO / FORMAT fields of any type and width, any ploidy -- decoding the arrays the reference encoder
+   produces returns the records' view: the records in header-contig order (file order inside a contig),
+   each with its contig, position, length, ID, alleles, quality, filters, every INFO value, every
+   per-sample FORMAT value and every genotype call with its phasing, up to exactly the documented
+   identifications (absent = full-width all-missing vector = bare '.' of a numeric field; a sample given
+   as '.' reads back as [missing]; the phase of a call with fewer than two alleles is undetermined).
+   So the store determines the records, and nothing else. *)
+Theorem spec_roundtrip : forall h recs0 arrs,
+  spec_encode h recs0 = Ok arrs -> records_ok h (sort_records recs0) ->
+  decode_store h arrs = records_view h (sort_records recs0).
+Proof. exact spec_roundtrip_lemma. Qed.
+Print Assumptions spec_roundtrip.
+
+(* non-vacuity: a header with an integer INFO vector, a flag, a float FORMAT field and genotypes; three
+   records on two contigs given out of header order, with missing values, a '.' sample, mixed ploidy *)
+Definition ex_header : header :=
+  {| h_ncontigs := 2; h_nfilters := 2; h_nsamples := 2; h_infos := [(5, 0); (0, 2)]; h_fmts := [(1, 1)]; h_has_gt := true |}%Z.
+Definition ex_records : list record :=
+  [ {| r_contig := 1; r_pos := 7; r_id := None; r_ref := 10; r_reflen := 1; r_alts := [11; 12]; r_qual := Some 1103626240; r_filters := Some [1];
+       r_info := [IVec [Some 3; None; Some 5]; IFlag]; r_fmt := [FSamples [Some [Some 1065353216]; None]];
+       r_gt := Some [([Some 0; Some 2], true); ([Some 1], false)] |};
+    {| r_contig := 0; r_pos := 100; r_id := Some 20; r_ref := 10; r_reflen := 3; r_alts := []; r_qual := None; r_filters := None;
+       r_info := [IAbsent; IAbsent]; r_fmt := [FAbsent]; r_gt := None |};
+    {| r_contig := 0; r_pos := 100; r_id := None; r_ref := 13; r_reflen := 1; r_alts := [11]; r_qual := Some 0; r_filters := Some [0];
+       r_info := [IVec [None]; IAbsent]; r_fmt := [FSamples [Some [None]; Some [Some 0]]];
+       r_gt := Some [([None; None], false); ([Some 1; None], true)] |} ]%Z.
+Example spec_roundtrip_instance :
+  match spec_encode ex_header ex_records with
+  | Ok arrs => decode_store ex_header arrs = records_view ex_header (sort_records ex_records) /\ length arrs = 14
+  | Err _ => False
+  end.
+Proof. vm_compute. split; reflexivity. Qed.
+
+(* core.BufferedArray as TRANSLATED from the source on every run (Gen/GenBuffer.v) refines the chunk-buffer
+   model of buffered_array_spec: driven as the encoders drive it (n calls of next_buffer_row from an offset,
+   then flush), the row-range writes it hands to the flush helpers are exactly the model's flushes ... *)
+Theorem translated_buffer_is_the_model : forall (A : Type) (cs : nat), 0 < cs -> forall o a0 (rs : list A),
+  snd (gen_encode cs (length rs) (Z.of_nat o)) = map to_event (flushes A (Buf.encode A cs o a0 rs)).
+Proof. exact translated_buffer_flushes. Qed.
+Print Assumptions translated_buffer_is_the_model.
+(* ... each write is chunk-aligned and at most one chunk long ... *)
+Theorem translated_buffer_writes_aligned : forall (cs : nat), 0 < cs -> forall (o n : nat),
+  Forall (fun e => match e with GenBuffer.Write st len => exists k, st = Z.of_nat (o + k * cs) /\ (0 < len <= Z.of_nat cs)%Z end)
+         (snd (gen_encode cs n (Z.of_nat o))).
+Proof. exact translated_buffer_aligned. Qed.
+Print Assumptions translated_buffer_writes_aligned.
+(* ... the buffer row next_buffer_row returns is the position the model appends at, one step at a time ... *)
+Theorem translated_buffer_step : forall (A : Type) (cs : nat), 0 < cs -> forall s (b : Buf.st A) r,
+  R A s b -> length (rows A b) <= cs ->
+  let '(s', row, ev) := GenBuffer.next_buffer_row (Z.of_nat cs) s in
+  R A s' (Buf.push A cs b r) /\ row = Z.of_nat (length (rows A (Buf.push A cs b r)) - 1) /\
+  map to_event (flushes A (Buf.push A cs b r)) = map to_event (flushes A b) ++ ev.
+Proof. intros A cs H s b r. exact (push_sim A cs H s b r). Qed.
+Print Assumptions translated_buffer_step.
+(* ... and the column loop of sync_flush_2d_array writes consecutive, non-empty column ranges of at most one
+   sample chunk from 0 to the array's width: every column exactly once *)
+Theorem flush_columns_cover : forall step width, (1 <= step)%Z -> (0 <= width)%Z ->
+  col_chain 0 (GenBuffer.flush_cols (S (Z.to_nat width)) 0 step width) width step.
+Proof. exact flush_cols_cover. Qed.
+Print Assumptions flush_columns_cover.
 
 Example c01_instance :
   enc_vec (-1)%Z (-2)%Z 3 (Some [Some 7%Z; None]) = [7; -1; -2]%Z /\ dec_vec (-1)%Z (-2)%Z [7; -1; -2]%Z = Some [Some 7%Z; None] /\
